@@ -11,7 +11,7 @@ pub fn n_cases(prop: &str, tier: &str) -> usize {
     let quick = tier == "quick";
     match prop {
         "C12" => if quick { 3000 } else { 100_000 },
-        "C20" => if quick { 400 } else { 4000 },
+        "C20" => if quick { 400 } else { 4100 },
         "C01" | "C02" => if quick { 400 } else { SMALL_SCOPE + 40_000 },
         "C03" => if quick { 300 } else { SMALL_SCOPE + 20_000 },
         "C15" => if quick { 600 } else { 30_000 },
@@ -135,6 +135,28 @@ fn c12(rng: &mut Rng, idx: usize) -> Case {
 // ---------------------------------------------------------------- C20
 
 fn c20(rng: &mut Rng, tier: &str, idx: usize) -> Case {
+    // thorough: the whole id space 0..10^7 in 100 range ops (cases 0..99), then sampled cases
+    if tier == "thorough" && idx < 100 {
+        let mut c = Case::new("termid-range");
+        let lo = idx * 100_000;
+        c.op(format!("rtrange {} {}", lo, lo + 100_000));
+        if idx == 99 {
+            c.op("rtrange 4294867295 4294967295".to_string());
+            c.op("roundtrip 4294967295".to_string());
+        }
+        c.stat("ids_in_ranges", 100_000);
+        c.nontrivial = true;
+        return c;
+    }
+    if tier == "quick" && idx == 1 {
+        let mut c = Case::new("termid-range");
+        let lo = (rng.below(99) * 100_000) as usize;
+        c.op(format!("rtrange {} {}", lo, lo + 20_000));
+        c.op("rtrange 9990000 10010000".to_string());
+        c.stat("ids_in_ranges", 40_000);
+        c.nontrivial = true;
+        return c;
+    }
     let mut c = Case::new("termid");
     let per = if tier == "quick" { 500 } else { 2500 };
     let borders: [u64; 14] = [0, 1, 9, 10, 99, 118, 999_999, 1_000_000, 9_999_999, 10_000_000, 10_000_001, 99_999_999, 4_294_967_294, 4_294_967_295];
